@@ -33,9 +33,9 @@ CLAIMED.update({
         "text": "Error discipline decided workspace-wide on MIR: every discarded Result (let _ / .ok() / drop / unused) and every io::Result "
                 "match whose Err arm reaches a success exit must be in a confirmed table; no raw write outside delegation or a zero-checked "
                 "advance loop; finish/try_finish/shutdown/Drop of every writer pass the flush of staged data and the format terminator; "
-                "MT writer joins and propagates; no raw sink flush/write inside a staging write() (an escaping Interrupted makes write_all duplicate data). "
+                "MT writer joins and propagates; no raw sink flush/write inside a staging write(); a writer created and dropped inside one function is flushed/finished on every Ok path (an escaping Interrupted makes write_all duplicate data). "
                 "Necessary conditions: an error can only be hidden through one of these shapes.",
-        "note": "trusts write_all semantics; known finding F10 (bam alignment Write::finish no-op) listed by exact key",
+        "note": "trusts write_all semantics; known finding F10 (bam alignment Write::finish no-op) listed by exact key; genuine defect F23 (six index fs::write helpers returned Ok without flushing) found through R6 and repaired (fix: 0ef2a68)",
         "technique": "static analysis: def-use discard detection, Err-edge reachability, must-pass-through with wrapper summaries (MIR)",
         "design_ref": "§5 C14",
     },
@@ -180,8 +180,8 @@ CLAIMED.update({
         "text": "Structural necessary conditions for 'a cut file never reads as clean and complete': EOF-vs-partial guard of the BAM/BCF record "
                 "readers, read_exact for bodies, CRC/ISIZE/frame-size integrity guards of BGZF and CRAM on every success exit, CRAM Ok(0) only on "
                 "the is_eof edge dominated by the header CRC comparison, index readers without raw read() and with try_from-converted counts, "
-                "no untabled error-to-success conversion. Prefix equality of what was yielded is not decided.",
-        "note": "the never-panics clause is C15's inventory; a BGZF file cut at a block boundary reads as a shorter clean stream by format design",
+                "no untabled error-to-success conversion, the bgzf block loader returning a nonzero length only for a block it read. Prefix equality of what was yielded is not decided.",
+        "note": "the never-panics clause is C15's inventory; a BGZF file cut at a block boundary reads as a shorter clean stream by format design; genuine defects F25 (eager BCF reader: partial prefix = EOF, previously mis-triaged as safe by this suite) and F26 (bgzf direct read fabricated bytes at EOF) repaired (fix: abb968d, 24c37d2)",
         "technique": "static analysis: guard dominance, call-site classification, Err-edge reachability (MIR)",
         "design_ref": "§5 C13",
     },
